@@ -355,6 +355,8 @@ pub fn run(tier: Tier) -> ! {
     for n in odd {
         cfgs.push(("labels".into(), Cfg { modes: vec![CMode { name: n.to_string(), pats: vec![CPat::new("a\"b", 0), CPat::new("[\"\\\\]+", 1), CPat::new("\\u{22}x", 2).with_la(false, "\"")], transitions: vec![] }, CMode { name: "plain".into(), pats: vec![CPat::new("\\\\", 0), CPat::new("[{}|<>]", 1), CPat::new("\\n|\\t", 3)], transitions: vec![] }] }));
     }
+    // dots in mode names (and in the prefix, see below)
+    cfgs.push(("names".into(), Cfg { modes: vec![CMode { name: "STRING.ESCAPE".into(), pats: vec![CPat::new("ab", 1)], transitions: vec![] }, CMode { name: "STRING".into(), pats: vec![CPat::new("x", 2)], transitions: vec![] }, CMode { name: "a.b.c".into(), pats: vec![CPat::new("y+", 3)], transitions: vec![] }, CMode { name: ".hidden".into(), pats: vec![CPat::new("z", 4)], transitions: vec![] }] }));
     cfgs.push(("labels".into(), Cfg { modes: vec![CMode { name: "N".repeat(200), pats: vec![CPat::new("a", 0)], transitions: vec![] }] }));
     for (n, c, _) in bridge::corpora(tier == Tier::Thorough) {
         cfgs.push((format!("corpus:{n}"), c));
@@ -366,7 +368,9 @@ pub fn run(tier: Tier) -> ! {
         }
         let (fam, cfg) = &cfgs[i];
         acc.cfgs += 1;
-        match check_cfg(cfg, dir.as_ref().unwrap(), "P", &mut acc.files) {
+        // prefixes with a dot, a space and non-ASCII characters for multi-mode configurations
+        let prefix = if cfg.modes.len() > 1 { ["P.v2", "pre fix", "Ünï", "P"][i % 4] } else { "P" };
+        match check_cfg(cfg, dir.as_ref().unwrap(), prefix, &mut acc.files) {
             Ok(built) => {
                 if built && cfg.has_lookahead() {
                     acc.nontrivial += 1;
@@ -375,7 +379,7 @@ pub fn run(tier: Tier) -> ! {
             Err(e) => acc.viol.add("", || Violation {
                 key: String::new(),
                 summary: format!("[{fam}] {}: {e}", cfg.show()).chars().take(500).collect(),
-                replay: json!({"configuration": cfg.to_json(), "calls": ["build_uncached()", "generate_compiled_automata_as_dot(\"P\", <empty writable folder>)"], "disagreement": e}),
+                replay: json!({"configuration": cfg.to_json(), "calls": ["build_uncached()", format!("generate_compiled_automata_as_dot({prefix:?}, <empty writable folder>)")], "disagreement": e}),
             }),
         }
         if acc.samples.items.is_empty() && cfg.has_lookahead() {
